@@ -97,6 +97,18 @@ def build() -> Tables:
           lambda: sorted(mod("src.orchestrator.core")._HARDCODED_EXCLUDE_EXTENSIONS))
     t.add("Orch", "defaultMaxWorkers", "Nat",
           lambda: mod("src.orchestrator.core").DEFAULT_MAX_WORKERS, 8)
+    # ---------------- ignore directives (C04)
+    def alias_pairs():
+        m = mod("src.core.rule_aliases")
+        return sorted([a, b] for a, b in m.RULE_ID_ALIASES.items())
+    try:
+        pairs = alias_pairs()
+        t.defs.setdefault("Ignore", []).append(("ruleIdAliases", "List (String × String)", "[" + ", ".join(f"({lean_str(a)}, {lean_str(b)})" for a, b in pairs) + "]"))
+        t.status["Ignore.ruleIdAliases"] = "import"
+    except Exception as exc:  # noqa: BLE001
+        t.defs.setdefault("Ignore", []).append(("ruleIdAliases", "List (String × String)", "[]"))
+        t.status["Ignore.ruleIdAliases"] = f"broken({exc})"
+    t.add("Ignore", "headerScanLines", "Nat", lambda: mod("src.core.constants").HEADER_SCAN_LINES, 10)
     # ---------------- magic numbers (C02)
     def rust_suffixes():
         import ast, inspect
